@@ -110,6 +110,18 @@ impl Property for C14 {
             schema_only: false,
         };
         case.pieces = gen_stream(rng, &w);
+        if rng.chance(1, 12) {
+            // a long history of malformed containers before the tail (whatever a reader
+            // accumulates per error must not keep it from recognising the values that follow)
+            let frag: &[u8] = *rng.pick(&[&b"[}"[..], b"{]", b"[x]", b"[1,]", b"{\"a\"}", b"[INFO] ", b"[[}"]);
+            let times = rng.range(130, 300);
+            let mut junk = Vec::new();
+            for _ in 0..times {
+                junk.extend_from_slice(frag);
+                junk.push(b'\n');
+            }
+            case.pieces.push(Piece::raw(junk));
+        }
         // the prefix must end in a separator so that the tail starts a fresh token
         case.pieces.push(Piece::gap(vec![b'\n']));
         let mut wish = PipeWish::any();
